@@ -747,18 +747,13 @@ package scipipe
 
 // process.go initPortsFromCmdPattern (C18): the join separator of a placeholder part "join:SEP" is SEP, all of it.
 // (The parts are the |-separated pieces of a placeholder body, which contains neither braces nor bars: that is the
-// hypothesis `fullMatch(part, "[^{}|]*")` of the step clause; it is a consequence of the placeholder pattern and of
+// hypothesis on a and b in the step clause; it is a consequence of the placeholder pattern and of
 // strings.Split that is not proved here.)
-//@ define joinSepOf(part string) string = substr(part, indexOf(part, "join:") + 5, len(part) - indexOf(part, "join:") - 5)
-//@ axiom re.join.group: forall s string :: fullMatch(s, "[^{}|]*") && contains(s, "join:") && len(s) > indexOf(s, "join:") + 5 ==> reGroup("join:([^{}|]+)", s, 1) == joinSepOf(s)
+//@ axiom re.join.group: forall a string, b string :: fullMatch(a, "[^{}|]*") && !contains(a, "join:") && fullMatch(b, "[^{}|]+") ==> reGroup("join:([^{}|]+)", a + "join:" + b, 1) == b
 //@ func (*Process).initPortsFromCmdPattern(p, cmd, params)
 //@   props C18
 //@   modifies *
-//@   loop 1 step join-separator-is-whole-text-after-join[C18]: fullMatch(part, "[^{}|]*") && contains(part, "join:") && len(part) > indexOf(part, "join:") + 5 ==> p.PortInfo[portName].join && p.PortInfo[portName].joinSep == joinSepOf(part)
-//@ func (*Process).Failf(p, msg, parts)
-//@   props C09
-//@   noreturn
-
+//@   loop 1 step join-separator-is-whole-text-after-join[C18]: forall a string, b string :: part == a + "join:" + b && fullMatch(a, "[^{}|]*") && !contains(a, "join:") && fullMatch(b, "[^{}|]+") ==> p.PortInfo[portName].join && p.PortInfo[portName].joinSep == b
 // ---------------------------------------------------------------------------
 // C16 / C04: wiring (port.go), readiness (baseprocess.go), starting processes (workflow.go)
 // ---------------------------------------------------------------------------
